@@ -143,12 +143,15 @@ class Package:
         self.nx = MNx()
         self.generic_flop = RefBlackBox("ff", ["clk", "d"], ["q"])
         self.cg = LazyNS(self._cg_attr)
-        RefCircuit._pkg_fallback = self
-        RefBlackBox._pkg_fallback = self
+        from .models import MBlackBox, MCircuit
+
+        for k, name in ((RefCircuit, "Circuit"), (RefBlackBox, "BlackBox"), (MCircuit, "Circuit"), (MBlackBox, "BlackBox")):
+            k._pkg_fallback = self
+            k._repo_class = name
 
     def bound_repo_method(self, obj, name):
         """A method that circuit.py's class defines although the reference model lacks it, bound to the model object."""
-        cls = "Circuit" if isinstance(obj, RefCircuit) else "BlackBox" if isinstance(obj, RefBlackBox) else None
+        cls = getattr(type(obj), "_repo_class", None)
         if cls is None or ("circuit.py", f"{cls}.{name}") not in self.repo.funcs:
             return None
         fi = self.repo.funcs[("circuit.py", f"{cls}.{name}")]
